@@ -27,11 +27,13 @@
 //!       sequences come from the BFS itself);
 //!   (c) `load(storage, empty root)` is an empty tree (zero root, placeholder exclusion
 //!       proofs with empty proof set, behaves like a fresh tree on insert);
-//!   (d) `load(storage, r)` for roots r absent from storage (constants and the roots of all
-//!       one-action successor maps) returns Err;
+//!   (d) `load(storage, r)` for roots r absent from storage (two constants on every state;
+//!       on the states of (b) also the roots of all one-action successor maps) returns Err;
 //!   (e) the nodes returned by `in_memory::nodes_from_set(reference map)` loaded at the
 //!       returned root give the same proofs as the original and, after every single
-//!       further action, the reference root;
+//!       further action, the reference root (the further actions are skipped when the
+//!       returned node set is identical to the live storage: same root + same storage =
+//!       the tree state already exercised in (b); counted in the histogram);
 //!   (f) fault enumeration: for EACH single stored node hidden (`Shared::hide`): load,
 //!       every proof, every alphabet action (+ the proof of the action's key afterwards)
 //!       must return Err or exactly what the unfaulted original returns — never another
@@ -194,14 +196,19 @@ impl M {
         }
         let Some(live_proofs) = self.proofs_intact(ctx, hist, &l.tree, tag) else { return };
         // reference roots of all one-action successor maps
-        let succ_roots: Vec<H256> = alphabet(self.nkeys)
-            .iter()
-            .map(|a| {
-                let mut after = l.refm.clone();
-                apply_ref(&mut after, a);
-                ref_root(&after)
-            })
-            .collect();
+        let want_further = !l.reloaded && hist.len() <= self.further_depth;
+        let succ_roots: Vec<H256> = if want_further {
+            alphabet(self.nkeys)
+                .iter()
+                .map(|a| {
+                    let mut after = l.refm.clone();
+                    apply_ref(&mut after, a);
+                    ref_root(&after)
+                })
+                .collect()
+        } else {
+            vec![]
+        };
 
         // (a) against the original (no reloads)
         if has_reload {
@@ -242,7 +249,7 @@ impl M {
             Err(e) => self.viol(ctx, hist, false, "C13:load:failed".into(), "Ok(tree)".into(), format!("{e:?}")),
         }
 
-        if !l.reloaded && hist.len() <= self.further_depth {
+        if want_further {
             self.further_ops(ctx, hist, &succ_roots, &snap, &root, "load");
         }
 
@@ -301,7 +308,7 @@ impl M {
                                 if nodes == snap {
                                     // identical storage and root => identical tree state as in (b)
                                     ctx.outcome("nodes_from_set:storage-identical-to-live-storage", 1);
-                                } else if hist.len() <= self.further_depth {
+                                } else if want_further {
                                     self.further_ops(ctx, hist, &succ_roots, &nodes, &r, "nodes_from_set");
                                 }
                             }
